@@ -457,7 +457,9 @@ def tr_soap(repo):
 
 
 def tr_hier(repo):
-    """HierDictDocument.deserialize: the key the request body is looked up under"""
+    """HierDictDocument.deserialize: the key a (non-null) request body of a complex message class
+    is looked up under before it is decoded with _doc_to_object.  The statements are interpreted
+    in order; only the null-body and simple-type cases may be diverted from _doc_to_object."""
     t = parse(repo, 'spyne/protocol/dictdoc/hier.py')
     fn = find(find(t.body, ast.ClassDef, 'HierDictDocument').body, ast.FunctionDef, 'deserialize')
     outer = [s for s in code(fn.body) if isinstance(s, ast.If) and U(s.test) == 'body_class']
@@ -468,32 +470,72 @@ def tr_hier(repo):
     if 'class_name = self.get_class_name(body_class)' not in src:
         fail('HierDictDocument.deserialize: class_name is not the type name of the message class')
     i = src.index('class_name = self.get_class_name(body_class)')
-    if i + 1 >= len(body) or not isinstance(body[i + 1], ast.If) or U(body[i + 1].test) != 'self.ignore_wrappers' \
-            or body[i + 1].orelse:
-        fail('HierDictDocument.deserialize: the ignore_wrappers block')
     for s in body[:i]:
         if mentions(s, 'class_name'):
             fail('HierDictDocument.deserialize: class_name touched before its definition', s)
-    blk = [U(s) for s in code(body[i + 1].body)]
-    if not blk or blk[-1] != 'doc = doc.get(class_name, None)':
-        fail('HierDictDocument.deserialize: the lookup %r' % (blk[-1:],))
-    mode = 'LkTypeName'
-    sub = ("if message is self.REQUEST and sub_name is not None:\n"
-           "    if isinstance(class_name, bytes) and (not isinstance(sub_name, bytes)):\n"
-           "        sub_name = sub_name.encode('utf8')\n    class_name = sub_name")
+    if src[:i] != ['doc = ctx.in_body_doc']:
+        fail('HierDictDocument.deserialize: the document is not ctx.in_body_doc %r' % (src[:i],))
+    BARE = 'message is self.REQUEST and sub_name is not None'
+    j = i + 1
+    have_sub = have_is_bare = False
+    if j < len(body) and src[j] == 'sub_name = body_class.Attributes.sub_name':
+        have_sub, j = True, j + 1
+    if j < len(body) and src[j] == 'is_bare = ' + BARE:
+        if not have_sub:
+            fail('HierDictDocument.deserialize: is_bare without sub_name')
+        have_is_bare, j = True, j + 1
+    if j >= len(body) or not isinstance(body[j], ast.If) or U(body[j].test) != 'self.ignore_wrappers' or body[j].orelse:
+        fail('HierDictDocument.deserialize: the ignore_wrappers block', body[j] if j < len(body) else None)
+    blk = code(body[j].body)
+    if not blk or U(blk[-1]) != 'doc = doc.get(class_name, None)':
+        fail('HierDictDocument.deserialize: the lookup', blk[-1] if blk else None)
+    enc = ("if isinstance(class_name, bytes) and (not isinstance(sub_name, bytes)):\n"
+           "    sub_name = sub_name.encode('utf8')")
     # the str form of a bytes class name (msgpack): no effect on a str-keyed document
     asstr = "if isinstance(class_name, bytes) and (not class_name in doc):\n    class_name = class_name.decode('utf8')"
-    rest = blk[:-1]
-    if rest[:2] == ['sub_name = body_class.Attributes.sub_name', sub]:
-        mode = 'LkSubName'
-        rest = rest[2:]
-    if rest not in ([], [asstr]):
-        fail('HierDictDocument.deserialize: unrecognised statements before the lookup %r' % (rest,))
-    tail = src[i + 2:]
-    if not tail or tail[-1] != 'ctx.in_object = result_message':
-        fail('HierDictDocument.deserialize: ctx.in_object is not the decoded message')
-    if not any('self._doc_to_object(ctx, body_class, doc, self.validator)' in x for x in tail):
-        fail('HierDictDocument.deserialize: the message is not decoded with _doc_to_object')
+    mode = 'LkTypeName'
+    for s in blk[:-1]:
+        if U(s) == 'sub_name = body_class.Attributes.sub_name' and not have_sub and mode == 'LkTypeName':
+            have_sub = True
+        elif isinstance(s, ast.If) and not s.orelse and mode == 'LkTypeName' and have_sub and \
+                (U(s.test) == BARE or (have_is_bare and U(s.test) == 'is_bare')):
+            inner = [U(x) for x in code(s.body)]
+            if inner not in (['class_name = sub_name'], [enc, 'class_name = sub_name']):
+                fail('HierDictDocument.deserialize: the key of a bare request %r' % (inner,))
+            mode = 'LkSubName'
+        elif U(s) == asstr:
+            pass
+        else:
+            fail('HierDictDocument.deserialize: unrecognised statement before the lookup', s)
+    # what happens to the looked-up document
+    tail = body[j + 1:]
+    DEC = 'self._doc_to_object(ctx, body_class, doc, self.validator)'
+    if [U(s) for s in tail] == ['result_message = ' + DEC, 'ctx.in_object = result_message']:
+        pass
+    else:
+        target = None
+        if len(tail) == 2 and U(tail[1]) == 'ctx.in_object = result_message':
+            target, tail = 'result_message', tail[:1]
+        else:
+            target = 'ctx.in_object'
+        if len(tail) != 1 or not isinstance(tail[0], ast.If):
+            fail('HierDictDocument.deserialize: what follows the lookup %r' % ([U(s)[:60] for s in tail],))
+        node = tail[0]
+        while True:
+            conj = [U(v) for v in node.test.values] if isinstance(node.test, ast.BoolOp) and \
+                isinstance(node.test.op, ast.And) else [U(node.test)]
+            if not ('doc is None' in conj or 'not issubclass(body_class, (ComplexModelBase, Any))' in conj):
+                fail('HierDictDocument.deserialize: a branch diverts a non-null body of a complex message', node.test)
+            assigns = [x for x in code(node.body) if isinstance(x, ast.Assign) and U(x.targets[0]) == target]
+            if len(assigns) != 1:
+                fail('HierDictDocument.deserialize: branch does not set %s' % target, node)
+            if len(node.orelse) == 1 and isinstance(node.orelse[0], ast.If):
+                node = node.orelse[0]
+                continue
+            if [U(x) for x in code(node.orelse)] != ['%s = %s' % (target, DEC)]:
+                fail('HierDictDocument.deserialize: the final branch is not _doc_to_object %r' % (
+                    [U(x) for x in code(node.orelse)],))
+            break
     return ['Definition hier_bare_lookup : lk_mode := %s.' % mode]
 
 
